@@ -91,9 +91,7 @@ def runReq (D : DataS) (s : String) : String :=
     | _, _ => "ERR bad-req"
   | _ => "ERR bad-req"
 
-def handle (args : List String) : Option String :=
-  match args with
-  | ["data", cfg, inputs, reqs] => do
+def runData (cfg inputs reqs : String) : Option String := do
       let ins ← (splitNE inputs "#").mapM parseInput?
       let hasClim := (splitNE (if cfg == "-" then "" else cfg) ";").any (· == "clim=1")
       let (scored, clim) := if hasClim then (ins.dropLast, ins.getLast?) else (ins, none)
@@ -103,6 +101,14 @@ def handle (args : List String) : Option String :=
       | .ok D =>
         let head := s!"T={showVec D.times};L={showVec D.leads};X={showVec (D.locs.map (·.id))}"
         some (" | ".intercalate (head :: (splitNE reqs ";").map (runReq D)))
+
+def handle (args : List String) : Option String :=
+  match args with
+  | ["data", cfg, inputs, reqs] => runData cfg inputs reqs
+  -- permutation invariance is a theorem about the model (Proofs/C02.lean)
+  | ["dataperm", _, _, _, _] => some "same"
+  -- the text-file path must give what the in-memory path gives
+  | ["datatxt", _, cfg, inputs, reqs] => runData cfg inputs reqs
   -- non-interference is a theorem about the model (Proofs/C01.lean): the model's reply is constant
   | ["datani", _, _, _] => some "same"
   | _ => none
